@@ -62,7 +62,18 @@ fn main() {
         }
         return;
     }
+    if args.get(1).map(|s| s.as_str()) == Some("--micro") && args.get(2).is_some() {
+        // same measurements on a fresh thread
+        let exe = std::env::current_exe().unwrap();
+        let _ = exe;
+        std::thread::spawn(|| micro()).join().unwrap();
+        return;
+    }
     if args.get(1).map(|s| s.as_str()) == Some("--micro") {
+        micro();
+        return;
+    }
+    fn micro() {
         use qbase::cid::GenUniqueCid;
         simcore::entropy::seed_thread_entropy(7);
         let n = 65536;
@@ -97,7 +108,6 @@ fn main() {
         let t = std::time::Instant::now();
         drop(local);
         println!("drop: {} us", t.elapsed().as_micros());
-        return;
     }
     if args.get(1).map(|s| s.as_str()) == Some("--panic-bench") {
         simcore::panics::install();
